@@ -120,6 +120,10 @@ class Variable:
         Returns:
             tuple: the bounds of the variable
         """
+        # bounds are expressed in the same units as the value: scaled only
+        # when the variable itself is scaled
+        if not self.apply_scaling:
+            return self.min_val, self.max_val
         min_val = (self.variable.scale(self.min_val)
                    if self.min_val is not None else None)
         max_val = (self.variable.scale(self.max_val)
